@@ -619,7 +619,11 @@ def _run_many_columns(item, ctx, b):
     keys, labs, scs = [], [], []
     for g_ in range(G):
         # every column takes all L levels over the groups; neighbouring groups differ in the leading columns only
-        key = tuple("v%03d" % ((g_ * (j + 1) * 7 + (g_ // (j + 2)) + j) % L) for j in range(ncols))
+        # groups of one block of 8 differ in the first column only (blocks of 4: also in the second, blocks differ in the
+        # trailing columns): whatever part of a combined code is lost, some pair of groups differs only there
+        blk = g_ // 8
+        key = tuple(["v%03d" % ((g_ % 8) * 3 % L), "v%03d" % ((g_ % 8) // 4 + blk % 2)]
+                    + ["v%03d" % ((blk * (j + 1) * 7 + j) % L) for j in range(2, ncols - 1)] + ["v%03d" % (blk % L)])
         for r in range(2 + (g_ % 3 == 0) * 4):
             keys.append(key)
             labs.append(1 if (g_ + r) % 2 else 0)
